@@ -33,8 +33,15 @@ def etsFit (p : Args) : Args :=
    ("disp", get p "disp"), ("callback", get p "callback"), ("return_params", get p "return_params")]
 
 /-- `ThetaForecaster(initial_level, deseasonalize=False, sp)`: simple exponential smoothing; the initialisation is
-"known" exactly when an initial level is given (`if self.initial_level`: None and 0 count as not given) -/
+"known" exactly when an initial level is given (`self.initial_level is not None`, since 636f889) -/
 def thetaCtor (p : Args) : Args :=
+  let lvl := get p "initial_level"
+  [("trend", "None"), ("damped_trend", "F"), ("seasonal", "None"), ("seasonal_periods", get p "sp"),
+   ("use_boxcox", "None"), ("initial_level", lvl), ("initial_trend", "None"), ("initial_seasonal", "None"),
+   ("initialization_method", if lvl == "None" then "estimated" else "known")]
+
+/-- the ORIGINAL code (before 636f889) decided by truthiness: `"known" if self.initial_level else "estimated"` -/
+def thetaCtorOrig (p : Args) : Args :=
   let lvl := get p "initial_level"
   [("trend", "None"), ("damped_trend", "F"), ("seasonal", "None"), ("seasonal_periods", get p "sp"),
    ("use_boxcox", "None"), ("initial_level", lvl), ("initial_trend", "None"), ("initial_seasonal", "None"),
